@@ -53,8 +53,6 @@ class ResolveOuterVars(ast.NodeTransformer):
             has = set()
             if isinstance(scope, ScopeFn):
                 has = scope.defined
-            elif isinstance(scope, ScopeLet):
-                has = set(scope.bindings.keys())
             elif isinstance(scope, ScopeGlobal):
                 res = []
                 if not scope.defined.issuperset(undefined):
